@@ -55,9 +55,9 @@ func q(b []byte) string {
 
 // Op is one write-batch operation.
 type Op struct {
-	Kind string `json:"op"`            // put | del | delrange | merge
-	Key  B      `json:"key"`           // key, or range start
-	Val  B      `json:"val,omitempty"` // value, merge operand (8 bytes LE), or range end (exclusive)
+	Kind string `json:"op"`  // put | del | delrange | merge
+	Key  B      `json:"key"` // key, or range start
+	Val  B      `json:"val"` // value, merge operand (8 bytes LE), or range end (exclusive)
 }
 
 // model is the sorted-map reference: the contract as documented in
